@@ -27,14 +27,28 @@ impl builtins::Command for EvalCommand {
             // `self.args`.
             let source_info = context.shell.call_stack().current_pos_as_source_info();
 
+            // Lines within the evaluated string are numbered starting from the line of
+            // the `eval` command itself, not from the start of the enclosing source.
+            let line_delta = context
+                .shell
+                .call_stack()
+                .current_frame()
+                .and_then(|frame| frame.current.as_ref())
+                .map_or(0, |pos| pos.line.saturating_sub(1));
+            context.shell.increment_interactive_line_offset(line_delta);
+
             // Return the direct result of running the string; we intentionally
             // pass through the result and honor its requested control flow. eval
             // executes in the current environment, so all control flow (return,
             // exit, break, continue) should propagate.
-            context
+            let result = context
                 .shell
                 .run_string(args_concatenated, &source_info, &context.params)
-                .await
+                .await;
+
+            context.shell.decrement_interactive_line_offset(line_delta);
+
+            result
         } else {
             Ok(ExecutionResult::success())
         }
